@@ -11,6 +11,7 @@ from . import tlc
 from . import replay
 
 VERIF = os.path.dirname(os.path.dirname(os.path.abspath(__file__)))
+OUT = os.environ.get('VERIF_OUT') or VERIF        # evidence/ and replays/ live here (the self-test redirects them)
 NPROC = min(16, os.cpu_count() or 4)
 
 
@@ -207,7 +208,7 @@ class Run(object):
                         self.known.append((k['what'], clause))
                     return
         h = hashlib.sha1(json.dumps(payload, sort_keys=True, default=str).encode()).hexdigest()[:12]
-        path = os.path.join(VERIF, 'replays', '%s-%s.json' % (self.prop, h))
+        path = os.path.join(OUT, 'replays', '%s-%s.json' % (self.prop, h))
         os.makedirs(os.path.dirname(path), exist_ok=True)
         if len(self.violations) < 20:
             with open(path, 'w') as fh:
@@ -241,8 +242,8 @@ class Run(object):
             "wall_s": round(wall, 2),
             "violations": len(self.violations),
         }
-        os.makedirs(os.path.join(VERIF, 'evidence'), exist_ok=True)
-        with open(os.path.join(VERIF, 'evidence', self.prop + '.json'), 'w') as fh:
+        os.makedirs(os.path.join(OUT, 'evidence'), exist_ok=True)
+        with open(os.path.join(OUT, 'evidence', self.prop + '.json'), 'w') as fh:
             json.dump(ev, fh, indent=1, default=str)
         for what, clause in self.known:
             print('KNOWN-FINDING: property=%s %s' % (self.prop, what))
